@@ -368,7 +368,9 @@ class ReservablePriorityReqFilterStore(FilterStore):
 
                   #reserving the item to preserved item order by adding the reserve_get event to a list(the index position of event= index position of reserved item)
                   self.reserved_events.append(event)
-                  break
+                  # tell _trigger_reserve_get to look at the next waiting request as well:
+                  # the item that could not serve this request's filter may serve the next one
+                  return True
 
 
 
